@@ -421,3 +421,65 @@ Example C06_zero_delta_nonvacuous :
       | _ => False end
   | _ => False end.
 Proof. vm_compute. auto 10. Qed.
+
+
+(* ========================================================================================== *)
+(* Cross-model links (appended; owner: the links, docs/Link.md section L2)                      *)
+(* ========================================================================================== *)
+(* "The loop stays armed for the earliest timer" (C06_armed_for_earliest) seen from the loop's
+   poll.  Link_LoopTimer joins this model with C09's loop iteration (P = C09_Model, PQ =
+   C09_Proofs, PP = C09_ProofsLoop; T = this file's C06_Model) by the timerfd contract as a
+   definition: [due tq] = the timerfd is armed for an instant that has passed; [env_of w rd tq] =
+   the environment the poll sees (eventfd counter w, timerfd readable iff due tq, other
+   descriptors rd); [tq_reach tq] = tq is reached by some history of this file's model. *)
+From Muduo Require Import Link_LoopTimer Link_Properties_L2b.
+
+Theorem C06_link_defs : forall w rd tq,
+  (due tq <-> exists x, T.armed tq = Some x /\ x <= T.clk tq) /\
+  (tq_reach tq <-> exists c ops evs, T.run (T.init c) ops = T.Ok (tq, evs)) /\
+  floor_val = TimerQueue_floor_val /\
+  P.k_wake (env_of w rd tq) = w /\ P.k_rd (env_of w rd tq) = rd /\
+  ((0 < P.k_texp (env_of w rd tq))%N <-> due tq).
+Proof.
+  exact (fun w rd tq =>
+    match L2_timer_defs tq 0%nat [] with
+    | conj a (conj b (conj c _)) => conj a (conj b (conj c (conj eq_refl (conj eq_refl (env_of_texp w rd tq)))))
+    end).
+Qed.
+Print Assumptions C06_link_defs.
+
+(* With a timer registered the loop cannot sleep past it.  In any combined state (epoll poller
+   reached by any history, the loop's wake-up and timer channels registered, functor queue p under
+   the queue invariant, timer queue reached by any history of this model): if the next poll blocks,
+   the timerfd IS armed, for an instant later than now and no later than
+   max(earliest deadline, last arming + 100 us floor) - the kernel ends the block by then; and a
+   registered timer whose deadline has passed (the floor since the last arming too) keeps the poll
+   from blocking at all. *)
+Theorem C06_registered_timer_keeps_poll_from_blocking : forall st sp wc tc wfd tfd w rd (p : list nat) tq,
+  PQ.reachEC st sp -> PP.loop_channels sp wc tc wfd tfd -> (p <> [] -> (0 < w)%N) -> tq_reach tq ->
+  let blocks := P.ep_full st (P.env_ready wfd tfd (env_of w rd tq)) = [] in
+  (blocks -> forall d a r, T.timers tq = (d, a) :: r ->
+     exists x, T.armed tq = Some x /\ T.clk tq < x <= Z.max d (T.arm_at tq + floor_val)) /\
+  (forall d a, In (d, a) (T.timers tq) -> d <= T.clk tq -> T.arm_at tq + floor_val <= T.clk tq ->
+     ~ blocks).
+Proof. exact L2b_registered_timer_bounds_the_poll. Qed.
+Print Assumptions C06_registered_timer_keeps_poll_from_blocking.
+
+(* what C09's iteration assumes of the timer channel's read callback (unread expirations := 0) is
+   what handleRead does here: readTimerfd consumes a due arming, and at the end of handleRead a
+   registered timer means the timerfd is armed for a later instant (not readable) *)
+Theorem C06_timer_read_agrees_with_loop_model : forall tq script tq' ev,
+  (due tq -> T.armed (T.consume tq) = None) /\
+  (tq_reach tq -> T.fire tq script = T.Ok (tq', ev) -> T.timers tq' <> [] -> ~ due tq').
+Proof. exact L2b_timer_read_agrees. Qed.
+Print Assumptions C06_timer_read_agrees_with_loop_model.
+
+(* non-vacuity: the loop's constructor state with one timer (deadline 5000, added at clock 1000):
+   the poll blocks, the timerfd is armed for a later instant; 5 ms later the timerfd is due *)
+Example C06_link_ex_blocked : exists st sp tq,
+  PQ.reachEC st sp /\ PP.loop_channels sp 1 0 4 3 /\ tq_reach tq /\ T.timers tq <> [] /\
+  P.ep_full st (P.env_ready 4 3 (env_of 0 (fun _ => 0%N) tq)) = [] /\
+  exists x, T.armed tq = Some x /\ T.clk tq < x.
+Proof. exact l2_ex_blocked. Qed.
+Example C06_link_ex_due : exists tq, tq_reach tq /\ due tq /\ T.timers tq <> [].
+Proof. exact l2_ex_due. Qed.
